@@ -37,7 +37,7 @@ func TestClasses(t *testing.T) {
 		{"for i in 1; do false; done", false},
 	})
 	run("TestPrecedenceMisparse", mk(func(s string) bool { f, err := Parse(s); return err == nil && TestPrecedenceMisparse(f) }), []tc{
-		{"[[ ! -z a && -z b ]]", true},
+		{"[[ ! -z a && -z b ]]", false},
 		{"[[ ! ( -z a && -z b ) ]]", false},
 		{"[[ -z a && ! -z b ]]", false},
 		{"[[ a == b && c == d || e == f ]]", true},
@@ -70,6 +70,10 @@ func TestClasses(t *testing.T) {
 		{`echo "$(false)" $?`, true},
 		{`echo $? "$(false)"`, false},
 		{`x=$(false); echo $?`, false},
+		{`echo "$(true)" "$(echo $?)"`, true},
+		{`echo "$(echo $?)" a`, false},
+		{`f() { echo "st=$?"; }; f "$(true)"`, true},
+		{`f() { echo hi; }; f "$(true)"`, false},
 	})
 	run("ReturnInSubshell", mk(func(s string) bool { f, err := Parse(s); return err == nil && ReturnInSubshell(f) }), []tc{
 		{"f() { (return 3); }", true},
@@ -97,6 +101,14 @@ func TestClasses(t *testing.T) {
 		{"for x in a; do g() { return 1; }; done", false},
 		{"for ((i=0;i<3;i++)); do for x in a; do :; done; exit 2; done", true},
 		{"for x in a; do echo $x | exit 3; done", true},
+	})
+	run("ExitTrapUnderRedirection", mk(func(s string) bool { f, err := Parse(s); return err == nil && ExitTrapUnderRedirection(f) }), []tc{
+		{"trap 'echo bye' EXIT; { exit 3; } > f1", true},
+		{"trap 'echo bye' EXIT; { echo a; } > f1", false},
+		{"trap 'echo bye' EXIT; set -e; { echo a; } > f1", true},
+		{"{ exit 3; } > f1", false},
+		{"trap 'echo bye' EXIT; { exit 3; } 2>&1", false},
+		{"trap 'echo bye' EXIT; f() { :; }; f >> f2", true},
 	})
 	run("ErrTrapRepeated", mk(func(s string) bool { f, err := Parse(s); return err == nil && ErrTrapRepeated(f) }), []tc{
 		{"trap 'echo e' ERR; { false; }", true},
